@@ -142,7 +142,8 @@ PORT_RUN_FX = [("self.out.put(packet)", "FxOutPut", [])]
 PORT_RUN_SEES = {"FxOutPut": ["busy", "busy_packet_size", "byte_size"]}
 PORT_RUN_FX_CONS = [("FxOutPut", "(busy : Z) (busy_packet_size : Z) (byte_size : Z)")]
 PORT_RUN_REQUESTS = [("self.store.get()", "RqStoreGet", [], "obj"),       # resumes with the packet
-                     ("env.timeout(_1)", "RqTimeout", ["Q"], None)]
+                     ("env.timeout(_1)", "RqTimeout", ["Q"], None),
+                     ("self.env.timeout(_1)", "RqTimeout", ["Q"], None)]      # the same Environment (self.env is env)
 PORT_RUN_REQ_CONS = [("RqStoreGet", ""), ("RqTimeout", "(d : Q)")]
 
 
